@@ -41,6 +41,23 @@ func init() {
 			if err != nil {
 				return fmt.Errorf("building the instrumented harness failed: %v\n%s", err, out)
 			}
+			// supporting pass: the same calls free-running under the race detector (needs cgo; skipped if it cannot be built)
+			os.Remove(verifRoot + "/bin/racepass")
+			rc := exec.Command("go", "build", "-race", "-tags", "verif", "-o", verifRoot+"/bin/racepass", "./racepass")
+			rc.Dir = verifRoot + "/vmc"
+			var env []string
+			for _, e := range os.Environ() {
+				if !strings.HasPrefix(e, "CGO_ENABLED=") {
+					env = append(env, e)
+				}
+			}
+			rc.Env = append(env, "CGO_ENABLED=1")
+			if ov := os.Getenv("VERIF_OVERLAY"); ov != "" {
+				rc.Args = append(rc.Args[:2], append([]string{"-overlay", ov}, rc.Args[2:]...)...)
+			}
+			if out, err := rc.CombinedOutput(); err != nil {
+				fmt.Printf("C19: race-detector pass not built (%v): %.200s\n", err, out)
+			}
 			return nil
 		},
 		Post: func(a *Agg, cov map[string]any) {
